@@ -63,6 +63,11 @@ def handlers():
                     if key in PROBES and typ in ("ValueError", "(ValueError, TypeError)"):
                         ok = True
                         what = "value probe (returns None/False for text that is not a number)"
+                    elif typ in ("StopIteration", "StopAsyncIteration"):
+                        # the iteration protocol's end-of-data signal (next() on an exhausted iterator): none of the faults of the
+                        # statement is reported through it
+                        ok = True
+                        what = "end-of-iteration signal, not a fault"
                     else:
                         ok = _reraises(h.body)
                         what = "re-raises on every path"
